@@ -25,6 +25,8 @@ func checkC19(r *Report, p *Program) {
 	r19_4(r, p, impls)
 	r19_5(r, p)
 	keyCompleteness(r, p, "R19.6", "getKeyFromObject")
+	// 429 ⇒ TooManyRequestError ⇒ re-queue after Retry-After, all the way up (shared with C12)
+	r12_4(r, p)
 }
 
 // webhookAbstractImpls returns the named module types implementing hooks.webhookAbstract.
